@@ -381,7 +381,8 @@ void on_mem_access(uintptr_t a, size_t n, bool write, uintptr_t pc) {
 }
 
 static const char* const kVirtNames[VL_N] = {"libc:LC_NUMERIC", "libc:locale(other)", "libc:strtok-state", "libc:rand-state",
-                                             "libc:static-struct-tm", "libc:environ", "libc:localeconv-buffer", "process:cwd"};
+                                             "libc:static-struct-tm", "libc:environ", "libc:localeconv-buffer", "process:cwd",
+                                             "libc:hsearch-table", "libc:signgam", "libc:ecvt-buffer"};
 void virt_access(int loc, bool write, const char* what, uintptr_t pc) {
   TaskCtx* t = t_task;
   if (!t || !SH) return;
